@@ -82,6 +82,21 @@ func buildOverlay(repo, verif string, native bool) (map[string][]byte, map[strin
 		sort.Strings(hn)
 		names[ps.key] = hn
 		ov[filepath.Join(repo, ps.dir, "zz_verif_intr.go")] = []byte(strings.Replace(string(tmpl), "PKGNAME", ps.name, 1))
+		shared, _ := filepath.Glob(filepath.Join(verif, "harness/common/*.go.tmpl"))
+		for _, sf := range shared {
+			b := filepath.Base(sf)
+			if b == "intr.go.tmpl" || b == "replay_test.go.tmpl" {
+				continue
+			}
+			if ps.key == "gxz" && b == "iomodels.go.tmpl" {
+				continue
+			}
+			data, err := os.ReadFile(sf)
+			if err != nil {
+				return nil, nil, err
+			}
+			ov[filepath.Join(repo, ps.dir, "zz_verif_"+strings.TrimSuffix(b, ".tmpl"))] = []byte(strings.Replace(string(data), "PKGNAME", ps.name, 1))
+		}
 		if native {
 			var sb strings.Builder
 			fmt.Fprintf(&sb, "package %s\n\nvar vHarnesses = map[string]func(){\n", ps.name)
